@@ -143,6 +143,9 @@ def build_doc(root, chain, leaf, counter=None):
 
 CONFIGS_FULL = [dict(reify=r, ppi=p, size=s, transform=t) for r in (True, False) for p in (96.0, 72.0)
                 for s in (None, (500, 300), ("5in", "3in")) for t in (None, "scale(2) translate(10,0)")]
+# the caller supplies only one of the two sizes (the other one defaults on its own)
+CONFIGS_FULL += [dict(reify=True, ppi=96.0, size=(450, None), transform=None),
+                 dict(reify=False, ppi=96.0, size=(None, 270), transform="scale(2) translate(10,0)")]
 CONFIGS_PAIR = [
     dict(reify=True, ppi=96.0, size=None, transform=None), dict(reify=False, ppi=96.0, size=None, transform=None),
     dict(reify=True, ppi=72.0, size=(500, 300), transform="scale(2) translate(10,0)"),
